@@ -184,7 +184,7 @@ pub fn run(toks: &[&str]) -> String {
         vclock::only_thread(vclock::gettid());
         vclock::enable(true);
         tid_tx.send(()).unwrap();
-        let r = std::panic::catch_unwind(std::panic::AssertUnwindSafe(|| pverif::run_poller(ctx, phc_info, Duration::from_millis(2))));
+        let r = std::panic::catch_unwind(std::panic::AssertUnwindSafe(|| pverif::run_poller(ctx, phc_info, Duration::from_secs(1_000_000_000))));
         vclock::enable(false);
         vclock::only_thread(0);
         r.is_ok()
